@@ -130,6 +130,7 @@ def sp_config(metadata_xml=None, **over):
         "xmlsec_binary": env.STANDIN_PATH,
         "metadata": {"inline": list(metadata_xml)},
         "delete_tmpfiles": True,
+        "encryption_keypairs": [{"key_file": fixtures.key_path("sp"), "cert_file": fixtures.cert_path("sp")}],
     }
     for k, v in over.items():
         if k.startswith("sp_"):
